@@ -35,11 +35,12 @@ func normHeader(h string) string {
 }
 
 type c19Case struct {
-	Header  []string   `json:"header"`
-	Records [][]string `json:"records"`
-	Raw     string     `json:"raw,omitempty"`   // malformed input given literally
-	Present bool       `json:"present"`         // output file exists beforehand
-	Plain   bool       `json:"plain,omitempty"` // written by encoding/csv's writer instead of quoting every field
+	Header      []string   `json:"header"`
+	Records     [][]string `json:"records"`
+	Raw         string     `json:"raw,omitempty"`          // malformed input given literally
+	Present     bool       `json:"present"`                // output file exists beforehand
+	PresentKind string     `json:"present_kind,omitempty"` // index (default) | empty | bytes
+	Plain       bool       `json:"plain,omitempty"`        // written by encoding/csv's writer instead of quoting every field
 }
 
 func (c c19Case) sig() string {
@@ -49,7 +50,7 @@ func (c c19Case) sig() string {
 	if c.Raw != "" {
 		return fmt.Sprintf("raw=%q output-present=%v", c.Raw, c.Present)
 	}
-	return fmt.Sprintf("header=%q records=%q output-present=%v", c.Header, c.Records, c.Present)
+	return fmt.Sprintf("header=%q records=%q output-present=%v%s plain-writer=%v", c.Header, c.Records, c.Present, c.PresentKind, c.Plain)
 }
 
 func (c c19Case) csv() []byte {
@@ -123,11 +124,18 @@ func c19Check(ctx *rt.Ctx, c c19Case) (viol string) {
 		out := filepath.Join(dir, fmt.Sprintf("out-%v.updog", big))
 		var before string
 		if c.Present {
-			p, _, err := ix.Build(dir, []model.Row{{"old": "index"}}, ix.MemFile)
-			if err != nil {
-				rt.Harnessf("build: %v", err)
+			switch c.PresentKind {
+			case "empty":
+				os.WriteFile(out, nil, 0o644)
+			case "bytes":
+				os.WriteFile(out, bytes.Repeat([]byte{0xAB}, 700), 0o644)
+			default:
+				p, _, err := ix.Build(dir, []model.Row{{"old": "index"}}, ix.MemFile)
+				if err != nil {
+					rt.Harnessf("build: %v", err)
+				}
+				os.Rename(p, out)
 			}
-			os.Rename(p, out)
 			before = fileState(out)
 		}
 		args := []string{"create", "-o", out}
@@ -274,7 +282,8 @@ func c19Worker(ctx *rt.Ctx, job *rt.Job) []*rt.Violation {
 				return vs
 			}
 		}
-		for _, c := range []c19Case{{Header: []string{"a"}, Present: true}, {Header: []string{"a", "b"}, Records: [][]string{{"1", "2"}}, Present: true}, {Raw: "a,b\n1\n", Present: true}} {
+		for _, c := range []c19Case{{Header: []string{"a"}, Present: true}, {Header: []string{"a", "b"}, Records: [][]string{{"1", "2"}}, Present: true}, {Raw: "a,b\n1\n", Present: true},
+			{Header: []string{"a"}, Records: [][]string{{"1"}}, Present: true, PresentKind: "empty"}, {Header: []string{"a"}, Records: [][]string{{"1"}}, Present: true, PresentKind: "bytes"}, {Header: []string{"a"}, Present: true, PresentKind: "empty"}} {
 			if !run(c) {
 				return vs
 			}
